@@ -143,8 +143,33 @@ func runC02(s *kernel.Sim) {
 	}
 	s.LogEngineEvents = false // their mutual order depends on engine-internal map iteration
 	inGroup := false
+	// In a third of the runs the quota's own expiry-GC goroutine is a schedulable task:
+	// when the clock stops exactly on one of its ticks it parks at its lock sites, and
+	// the operations of that instant interleave with the GC pass. It is never held while
+	// the clock moves (no stall), and it runs on before the next clock step.
+	bgYield := tp.Chance(1, 3)
+	bgOn := false
+	s.Knobs["gc_goroutine_schedulable"] = bgYield
 	s.YieldOn = func(point string, a []string, harness bool) bool {
-		return harness && inGroup && isLockPoint(point) && siteOn(a[0])
+		if !harness {
+			return bgYield && bgOn && isLockPoint(point)
+		}
+		return inGroup && isLockPoint(point) && siteOn(a[0])
+	}
+	drainBG := func() {
+		for i := 0; i < 500; i++ {
+			var bg *kernel.Task
+			for _, t := range s.ParkedTasks() {
+				if !t.Harness {
+					bg = t
+					break
+				}
+			}
+			if bg == nil {
+				return
+			}
+			s.Resume(bg)
+		}
 	}
 
 	var txns []*c02txn
@@ -310,7 +335,29 @@ func runC02(s *kernel.Sim) {
 				}
 			}
 		}
-		s.SleepUntil(targets[tp.Choose(len(targets))])
+		target := targets[tp.Choose(len(targets))]
+		if bgYield {
+			drainBG()
+			bgOn = false
+			if tp.Chance(1, 2) { // stop exactly on a tick of the expiry GC
+				if gt := (s.Now()/G + 1 + time.Duration(tp.Choose(3))) * G; gt > s.Now() {
+					target = gt
+				}
+			}
+			if target > s.Now()+1 {
+				s.SleepUntil(target - 1) // the GC runs freely inside the jump
+			}
+			bgOn = true
+		}
+		s.SleepUntil(target)
+		if bgYield {
+			for _, t := range s.ParkedTasks() {
+				if !t.Harness {
+					s.FaultFired("operations_interleaved_with_a_gc_pass")
+					break
+				}
+			}
+		}
 
 		// candidate end events
 		var open []*c02txn
@@ -426,6 +473,9 @@ func runC02(s *kernel.Sim) {
 			return
 		}
 		if tp.Chance(1, 3) {
+			if bgYield {
+				drainBG()
+			}
 			probe(tp.Choose(map[bool]int{true: 2, false: 1}[withParent]), "R2")
 		}
 	}
@@ -433,6 +483,8 @@ func runC02(s *kernel.Sim) {
 		return
 	}
 	// settle: every open transaction expires, one more GC round passes
+	bgOn = false
+	drainBG()
 	s.Sleep(E + G + 2*time.Second)
 	probe(0, "R3")
 	if withParent && !s.Failed() {
